@@ -265,6 +265,7 @@ def pc_fragile(case, Ks, obs, info):
 # preconditioner cases
 
 DKINDS = ["const_op", "const_vec", "nonconst", "const_members_differ", "mixed", "bcast_nonconst", "bcast_const"]
+BOUNDARY_KINDS = ["exact_vec", "near_ulp", "near_1e-7", "near_1e-5", "near_1e-3", "tiny_1e-9", "tiny_1e-7", "tiny_const", "mixed_near"]
 ROUTES = ["AddedDiag(K,D)", "AddedDiag(D,K)", "K+D", "add_diagonal", "add_jitter"]
 
 
@@ -300,6 +301,21 @@ def pre_grid(ctx):
                                       "prior_tol": prior_tol_for(tol) if cnt % 3 == 2 else None,
                                       "vseed": rng.randrange(1 << 30)})
                         cnt += 1
+    # decision boundary of the constant-diagonal test (torch.equal: EXACT equality with the first entry, per member,
+    # on the whole batch): exactly constant / constant up to 1 ulp, 1e-7, 1e-5, 1e-3 relative / tiny magnitudes with a
+    # large relative spread / tiny exactly constant / batches mixing the kinds; K of order 1 and K of order 2^-27
+    for fam in ("full", "lowrank", "toeplitz"):
+        for n in ((3, 5, 6) if ctx.quick else (3, 4, 5, 6, 8)):
+            for bs in ((), (2,), (3,)):
+                for dk in BOUNDARY_KINDS:
+                    if dk == "mixed_near" and not bs:
+                        continue
+                    cases.append({"kind": "pre", "fam": fam, "n": n, "batch": list(bs), "cls": "Dense", "dkind": dk,
+                                  "max_size": [1, 2, n, 3, n - 1][cnt % 5], "min_size": 1, "tol": [1e-3, 1e-1, 1e-8][cnt % 3],
+                                  "route": ["AddedDiag(K,D)", "K+D", "AddedDiag(D,K)"][cnt % 3], "twice": cnt % 4 == 1,
+                                  "prior_tol": None, "k_scale": dk.startswith("tiny") and cnt % 2 == 0,
+                                  "vseed": rng.randrange(1 << 30)})
+                    cnt += 1
     # special cells
     for n in (2, 3):
         cases.append({"kind": "pre", "fam": "indefinite", "n": n, "batch": [], "cls": "Dense", "dkind": "const_op",
@@ -324,8 +340,14 @@ def materialise_pre(case):
         Ks, metas = [K], [{}]
     else:
         Ks, metas = make_members(rng, case["fam"], n, nb, True)
+    if case.get("k_scale"):
+        Ks = [K * (2.0 ** -27) for K in Ks]
     dk = case["dkind"]
     bs = tuple(case["batch"])
+    if dk in BOUNDARY_KINDS:
+        rows = [boundary_row(rng, dk, n, b) for b in range(nb)]
+        raw = torch.tensor(rows, dtype=G.DT).reshape(*bs, n)
+        return Ks, metas, ("diag", raw), [raw.reshape(-1, n)[b].tolist() for b in range(nb)]
     # D as (raw tensor handed to the constructor, is ConstantDiag?, per-member diagonals)
     if dk == "const_op":
         c = _dy_pos(rng)
@@ -373,6 +395,34 @@ def materialise_pre(case):
         cs = [0.5, 0.75]
         raw = torch.tensor(cs, dtype=G.DT).reshape(2, 1)
         return Ks * 2, metas * 2, ("constdiag", raw), [[c] * n for c in cs]
+    raise ValueError(dk)
+
+
+def boundary_row(rng, dk, n, b):
+    """one member's diagonal around the constant / non-constant decision boundary"""
+    c = _dy_pos(rng)
+    if dk == "mixed_near":
+        dk = ["exact_vec", "near_1e-5", "near_1e-3", "near_ulp"][(b + rng.randrange(2)) % 4] if b else "exact_vec"
+    if dk == "exact_vec":
+        return [c] * n
+    if dk == "tiny_const":
+        return [3e-9] * n
+    if dk == "near_ulp":
+        row = [c] * n
+        row[rng.randrange(n)] = c * (1.0 + 2.0 ** -52) if rng.randrange(2) else c * (1.0 - 2.0 ** -53)
+        return row
+    if dk.startswith("near_"):
+        rel = float(dk[5:])
+        row = [c * (1.0 + rel * rng.uniform(-1.0, 1.0)) for _ in range(n)]
+        j = rng.randrange(1, n) if n > 1 else 0
+        row[j] = row[0] * (1.0 + rel * (0.9 if rng.randrange(2) else -0.9))      # at least one entry a full step away
+        return row
+    if dk.startswith("tiny_"):
+        base = float(dk[5:])
+        row = [base * (1.0 + 9.0 * rng.random()) for _ in range(n)]            # spread of up to 900 %
+        if n > 1 and max(row) < 3 * min(row):
+            row[-1] = 5 * min(row)
+        return row
     raise ValueError(dk)
 
 
@@ -426,7 +476,8 @@ def run_pre(case, Ks, metas, Dspec, Ds):
                 sp = ad._solve_preconditioner()
                 sentinel = (object(), object(), object())
                 ad_ov = O.AddedDiagLinearOperator(Kop, Dop, preconditioner_override=lambda self_: sentinel)
-                extra = {"override_ok": ad_ov._preconditioner() is sentinel,
+                extra = {"const_flag": getattr(ad, "_constant_diag", None),
+                         "override_ok": ad_ov._preconditioner() is sentinel,
                          "solve_ok": (sp is None) if cl is None else (sp is not None and torch.equal(sp(I), cl(I))),
                          "base_none": tuple(Kop._preconditioner()) == (None, None, None) if type(Kop) is not O.AddedDiagLinearOperator else True}
                 if cl is None:
@@ -448,8 +499,14 @@ def pre_case_lit(case, Ks, Ds, obs):
     else:
         o = "(Some %s)" % lst(["(%s, %s, %s)" % (mat(obs["clI"][b].tolist()), mat(obs["P"][b].tolist()), fl(obs["ld"][b].item()))
                                  for b in range(len(Ks))])
-    return "CasePre %s %d %s %s %s %s" % (st_lit(case["max_size"], case["min_size"], case["tol"]), case["n"],
-                                          lst([mat(K.tolist()) for K in Ks]), lst([vec(d) for d in Ds]), fl(TOL_PRE), o)
+    # the model runs modified Gram-Schmidt, the implementation Householder QR: both lose accuracy with the conditioning
+    # max|K| / min d of the Woodbury form; the per-case tolerance follows it (1e-8 for the well-conditioned bulk)
+    wood = max(float(K.abs().max()) / min(d) for K, d in zip(Ks, Ds)) if Ks and all(min(d) > 0 for d in Ds) else 1.0
+    tol = max(TOL_PRE, 1e-13 * wood)
+    cf = obs.get("const_flag")
+    return "CasePre %s %d %s %s %s %s %s" % (st_lit(case["max_size"], case["min_size"], case["tol"]), case["n"],
+                                             lst([mat(K.tolist()) for K in Ks]), lst([vec(d) for d in Ds]), fl(tol),
+                                             "None" if cf is None or obs["none"] else ("(Some true)" if cf else "(Some false)"), o)
 
 
 def pre_key(case, what):
